@@ -228,6 +228,35 @@ pub fn run(args: &Args) {
             let again = rt.open_table(T0).map(|_| "served".to_string()).unwrap_or_else(|e| format!("err:{}", err_tag(e)));
             format!("{after}/{again}")
         });
+        // --- the backend's own close() reports an error: it was still called, and must not be called again
+        for variant in ["drop", "reader-outlives", "deferred-to-writer", "failing-open"] {
+            scenario(&mut out, &format!("close-fails-{variant}"), if variant == "failing-open" { &bad_magic } else { &clean }, false, |b| {
+                b.mon.fail_close.store(true, Ordering::SeqCst);
+                match variant {
+                    "drop" => {
+                        let db = open_db(b.clone(), &cfg).unwrap();
+                        drop(db);
+                        "dropped".into()
+                    }
+                    "reader-outlives" => {
+                        let db = open_db(b.clone(), &cfg).unwrap();
+                        let rt = db.begin_read().unwrap();
+                        drop(db);
+                        let r = read_all(&rt).map(|_| "served".to_string()).unwrap_or_else(|e| format!("err:{}", e.split(['(', ' ', '{']).next().unwrap_or("")));
+                        drop(rt);
+                        r
+                    }
+                    "deferred-to-writer" => {
+                        let db = open_db(b.clone(), &cfg).unwrap();
+                        let txn = db.begin_write().unwrap();
+                        drop(db);
+                        let r = txn.commit().map(|_| "ok".to_string()).unwrap_or_else(|e| format!("err:{}", err_tag(e)));
+                        r
+                    }
+                    _ => open_db(b.clone(), &cfg).map(|_| "ok".to_string()).unwrap_or_else(|e| format!("err:{}", err_tag(e))),
+                }
+            });
+        }
         // --- a reader's backend call in flight while the Database is dropped (forced schedules):
         // the reader is parked between the latch test and the backend call, at each of its backend
         // reads, while another thread drops the Database
